@@ -679,7 +679,15 @@ impl<'a> Gen<'a> {
         ));
         let mut user = String::new();
         let entry = if r.chance(80) { "main" } else { "entry" };
-        user.push_str(&format!("{}fn {entry}() -> i32\n{{\n{locals}", if entry == "main" { "" } else { "pub " }));
+        // linkage (C03: each defined function is defined in the IR, `main` and `pub` functions external): the entry
+        // point and four leaf functions of the user module carry every combination of `pub` and `extern`
+        let combos = ["", "pub ", "extern ", "pub extern "];
+        let rot = r.below(4);
+        for k in 0..4 {
+            user.push_str(&format!("{}fn leaf{k}(x: i32) -> i32\n{{\n\treturn: x + {k}\n}}\n\n", combos[(k + rot) % 4]));
+        }
+        let entry_flags = if entry == "main" { combos[r.below(4)] } else { combos[1 + 2 * r.below(2)] };
+        user.push_str(&format!("{entry_flags}fn {entry}() -> i32\n{{\n{locals}"));
         user.push_str(&format!("\tvar p = {};\n", lit(&mut r, "Packet", "m", &smembers, false)));
         user.push_str(&format!("\tvar q = {};\n", lit(&mut r, "Packet", "m", &smembers, true)));
         let k1 = r.chance(50);
@@ -704,6 +712,7 @@ impl<'a> Gen<'a> {
         user.push_str(&format!("\to.word = {};\n", lit(&mut r, "Wd", "w", wmembers, false)));
         user.push_str("\tw = f;\n\to.word = w;\n");
         user.push_str("\tvar t = tag_of(o) as i32 + tag_of(c) as i32;\n");
+        user.push_str("\tt = leaf0(t) + leaf1(1) + leaf2(2) - leaf3(3) - 3;\n");
         user.push_str("\tw = DEFAULT_WORD;\n");
         user.push_str("\treturn: t\n}\n");
         let mods = if two_modules {
